@@ -323,17 +323,17 @@ Section Rel.
 
   (* ---------- lists with error recovery ---------- *)
   Lemma RK_sep_list_rec {A} (Q : N -> N -> A -> Prop) p sep : MonoQ Q -> (forall m, RK m Q p) ->
-    forall fuel acc i c lo0,
+    forall fuel prev acc i c lo0, T prev ->
     BodyOK i -> Suffix i B -> Iv c -> lo0 <= key i -> Chain Q lo0 (key i) (rev acc) ->
-    post i (Shift (Chain Q) lo0) (sep_list_rec fuel p sep acc i c).
+    post i (Shift (Chain Q) lo0) (sep_list_rec fuel p sep prev acc i c).
   Proof.
-    intros HQ Hp. induction fuel as [|f IH]; intros acc i c lo0 Hb Hs Hc Hlo Hch; [exact I|]. cbn [sep_list_rec].
+    intros HQ Hp. induction fuel as [|f IH]; intros prev acc i c lo0 Hprev Hb Hs Hc Hlo Hch; [exact I|]. cbn [sep_list_rec].
     pose proof (use_RK _ _ _ i c (Hp (key i)) Hb Hs (N.le_refl _) Hc) as H1.
     (* the state after the item: position, accumulator, context *)
     assert (forall r acc' c1, Suffix r i -> Iv c1 -> Chain Q lo0 (key r) (rev acc') ->
               post i (Shift (Chain Q) lo0)
                 (match exp_token sep r c1 with
-                 | (Ok r2 _, c2) => sep_list_rec f p sep acc' r2 c2
+                 | (Ok r2 st, c2) => sep_list_rec f p sep st acc' r2 c2
                  | (Err e _, c2) => (Ok e (rev acc'), c2)
                  | (Panic s, c2) => (Panic s, c2)
                  | (NoFuel, c2) => (NoFuel, c2)
@@ -346,9 +346,9 @@ Section Rel.
       - destruct H2 as (B1 & B2 & B3).
         assert (BodyOK r2) as Hbr2 by bsuf.
         pose proof (key_suffix u r2 r Hbr B1) as Hkr2.
-        specialize (IH acc' r2 c2 lo0 Hbr2 (Suffix_trans _ _ _ B1 (Suffix_trans _ _ _ A1 Hs)) B3 ltac:(lia)).
+        specialize (IH t2 acc' r2 c2 lo0 (proj1 B2) Hbr2 (Suffix_trans _ _ _ B1 (Suffix_trans _ _ _ A1 Hs)) B3 ltac:(lia)).
         specialize (IH ltac:(eapply Chain_widen; [exact HQ|exact Hch'|lia|lia])).
-        destruct (sep_list_rec f p sep acc' r2 c2) as [[r3 l3|e3 msg3|s3|] c3]; cbn [post] in *; auto.
+        destruct (sep_list_rec f p sep t2 acc' r2 c2) as [[r3 l3|e3 msg3|s3|] c3]; cbn [post] in *; auto.
         + destruct IH as (C1 & C2 & C3). repeat split; auto. eapply Suffix_trans; [exact C1|eapply Suffix_trans; eauto].
         + destruct IH as (C1 & C3). split; auto. eapply Suffix_trans; [exact C1|eapply Suffix_trans; eauto].
       - destruct H2 as (B1 & B3). split; [eapply Suffix_trans; eauto|]. split; [|exact B3]. unfold Shift.
@@ -377,10 +377,10 @@ Section Rel.
       + destruct H2 as (B1 & B2 & B3).
         assert (BodyOK r2) as Hbr2 by bsuf.
         pose proof (key_suffix u r2 r Hbr B1) as Hkr2.
-        pose proof (RK_sep_list_rec Q p sep HQ Hp (S (length r2)) [a] r2 c2 (key i) Hbr2
+        pose proof (RK_sep_list_rec Q p sep HQ Hp (S (length r2)) t2 [a] r2 c2 (key i) (proj1 B2) Hbr2
                       (Suffix_trans _ _ _ B1 (Suffix_trans _ _ _ A1 Hs)) B3 ltac:(lia)) as H3.
         specialize (H3 ltac:(cbn [rev app]; apply (Chain_cons _ (key i) (key r) (key r2)); [exact A2|lia|constructor; lia])).
-        destruct (sep_list_rec (S (length r2)) p sep [a] r2 c2) as [[r3 l3|e3 msg3|s3|] c3]; cbn [post] in *; auto.
+        destruct (sep_list_rec (S (length r2)) p sep t2 [a] r2 c2) as [[r3 l3|e3 msg3|s3|] c3]; cbn [post] in *; auto.
         * destruct H3 as (C1 & C2 & C3). repeat split; auto. eapply Suffix_trans; [exact C1|eapply Suffix_trans; eauto].
         * destruct H3 as (C1 & C3). split; auto. eapply Suffix_trans; [exact C1|eapply Suffix_trans; eauto].
       + destruct H2 as (B1 & B3). split; [eapply Suffix_trans; eauto|]. split; [|exact B3].
@@ -413,10 +413,10 @@ Section Rel.
       assert (BodyOK (skip_after_error i e)) as Hbr by bsuf.
       pose proof (key_suffix u _ i Hb Hsk) as Hkr.
       assert (BodyOK e) as Hbe by bsuf.
-      specialize (IH acc (skip_after_error i e) (add_diag (diag_at e msg) c1) lo0 Hbr (Suffix_trans _ _ _ Hsk Hs)
-                     (I_diag _ _ (diag_at_ok u e msg Hbe) A3) ltac:(lia)
+      specialize (IH acc (skip_after_error i e) (add_diag (diag_at i e msg) c1) lo0 Hbr (Suffix_trans _ _ _ Hsk Hs)
+                     (I_diag _ _ (diag_at_ok u t0 i' e msg Hb Hbe) A3) ltac:(lia)
                      ltac:(eapply Chain_widen; [exact HQ|exact Hch|lia|lia])).
-      destruct (repeat_go f p acc (skip_after_error i e) (add_diag (diag_at e msg) c1)) as [[r3 l3|e3 msg3|s3|] c3]; cbn [post] in *; auto.
+      destruct (repeat_go f p acc (skip_after_error i e) (add_diag (diag_at i e msg) c1)) as [[r3 l3|e3 msg3|s3|] c3]; cbn [post] in *; auto.
       + destruct IH as (C1 & C2 & C3). split; [eapply Suffix_trans; eauto|]. split; [exact C2|exact C3].
       + destruct IH as (C1 & C3). split; auto. eapply Suffix_trans; eauto.
   Qed.
@@ -462,10 +462,10 @@ Section Rel.
       assert (BodyOK (skip_after_error i e)) as Hbr by bsuf.
       pose proof (key_suffix u _ i Hb Hsk) as Hkr.
       assert (BodyOK e) as Hbe by bsuf.
-      specialize (IH acc (skip_after_error i e) (add_diag (diag_at e msg) c1) lo0 Hbr (Suffix_trans _ _ _ Hsk Hs)
-                     (I_diag _ _ (diag_at_ok u e msg Hbe) A3) ltac:(lia)
+      specialize (IH acc (skip_after_error i e) (add_diag (diag_at i e msg) c1) lo0 Hbr (Suffix_trans _ _ _ Hsk Hs)
+                     (I_diag _ _ (diag_at_ok u t0 i' e msg Hb Hbe) A3) ltac:(lia)
                      ltac:(eapply Chain_widen; [exact HQ|exact Hch|lia|lia])).
-      destruct (until_go f stop p acc (skip_after_error i e) (add_diag (diag_at e msg) c1)) as [[r3 l3|e3 msg3|s3|] c3]; cbn [post] in *; auto.
+      destruct (until_go f stop p acc (skip_after_error i e) (add_diag (diag_at i e msg) c1)) as [[r3 l3|e3 msg3|s3|] c3]; cbn [post] in *; auto.
       + destruct IH as (C1 & C2 & C3). split; [eapply Suffix_trans; eauto|]. split; [exact C2|exact C3].
       + destruct IH as (C1 & C3). split; auto. eapply Suffix_trans; eauto.
   Qed.
